@@ -1,8 +1,23 @@
 #!/bin/sh
 # tryp.sh <patch> <prop>... : apply a patch to a private scratch worktree of /repo and run the given checks against it
-SCR=/tmp/tryp-repo
+# (prints one line per distinct rule|detail with the number of bodies it fired in)
+SCR=${TRYP_SCRATCH:-/tmp/tryp-repo}
 [ -d $SCR ] || git -C /repo worktree add -q --detach $SCR HEAD
 git -C $SCR checkout -q -- . ; git -C $SCR apply "$1" || exit 9
 shift
-for p in "$@"; do VERIF_REPO=$SCR /verif/check $p 2>&1 | grep -v "^WARN" | grep -v "^  C[0-9][0-9]\.[A-Z0-9]* *[a-z]* *[0-9]*$" | cut -c1-400; done
+for p in "$@"; do
+  VERIF_REPO=$SCR /verif/check $p 2>&1 | grep -v "^WARN" | python3 -c "
+import sys,re,collections
+c=collections.Counter(); first={}
+for l in sys.stdin:
+    l=l.rstrip()
+    if ' | ' in l and '] ' in l:
+        parts=l.split('] ',1)[1].split(' | ')
+        k=(parts[0], re.sub(r'child(#\d+|\[[^\]]*\])','child',parts[-1])[:150])
+        c[k]+=1; first.setdefault(k,parts[1][:90])
+    elif l.startswith(('INCONCLUSIVE','C')) and 'tier=' in l or l.startswith('INCONCLUSIVE'):
+        print(l[:230])
+for k,n in c.items(): print('   %-13s x%-3d %s   [%s]'%(k[0],n,k[1],first[k]))
+"
+done
 git -C $SCR checkout -q -- .
